@@ -48,7 +48,8 @@ type AsrtSpec struct {
 	// EmptyRestrictions: this many AudienceRestriction elements without any Audience child are written into the Conditions (a
 	// restriction that names nobody is satisfied by nobody)
 	EmptyRestrictions int        `json:"audience_restrictions_without_audience,omitempty"`
-	QualAttrs         []NSDecl   `json:"foreign_namespace_attributes,omitempty"` // see RespSpec.QualAttrs (applied before this assertion is signed)
+	QualAttrs         []NSDecl   `json:"foreign_namespace_attributes,omitempty"`  // see RespSpec.QualAttrs (applied before this assertion is signed)
+	NSDecls           []NSDecl   `json:"unused_namespace_declarations,omitempty"` // see RespSpec.NSDecls: added after this assertion was signed and before it is encrypted (whoever encrypts need not be who signed)
 	NoSubject         bool       `json:"no_subject,omitempty"`
 	NoNameID          bool       `json:"no_nameid,omitempty"`
 	NoConditions      bool       `json:"no_conditions,omitempty"`
@@ -387,6 +388,7 @@ func buildAssertionEl(a *AsrtSpec, t0 time.Time, form int, method string) *etree
 		el = placeSignature(signEnveloped(rsaKeys[a.SignKey], method, el))
 	}
 	if a.Encrypt {
+		applyNSDecls(el, a.NSDecls, t0)
 		return encryptAssertionEl(el, rsaKeys[a.EncryptTo])
 	}
 	return el
@@ -442,6 +444,9 @@ func BuildResponseEl(s *RespSpec, t0 time.Time) *etree.Element {
 		}
 		as := s.Assertions[i]
 		as.QualAttrs = append(append([]NSDecl(nil), as.QualAttrs...), s.QualAttrs...)
+		if as.Encrypt {
+			as.NSDecls = append(append([]NSDecl(nil), as.NSDecls...), s.NSDecls...)
+		}
 		el.AddChild(buildAssertionEl(&as, t0, s.TimeForm, s.SigMethod))
 	}
 	if len(s.QualAttrs) > 0 {
